@@ -9,3 +9,5 @@ pub mod scalars;
 pub mod events;
 #[cfg(any(feature = "garde", feature = "validator"))]
 pub mod pathmap;
+#[cfg(feature = "robotics")]
+pub mod robotics;
